@@ -76,9 +76,12 @@ PROPS = {
         "quick_runs": 16000, "thorough_runs": 250000, "seed": 19000001,
         "rule": "C19 histories: default pool + victim pool (2-5 workers, any policy, elasticity on; a control sub-workload without "
                 "elasticity) x suspend/resume of single processing units and of the whole pool issued from tasks of the other pool "
-                "and from OS threads, concurrently with hinted and unhinted submissions and yielding tasks; refused operations "
+                "and from OS threads, concurrently with hinted and unhinted submissions and yielding tasks; resumes of a processing unit that are "
+                "not serialised with the other parties (half of them aimed at a suspend in flight: either order is a legal outcome, the model "
+                "tracks the unit as 'unknown' until it is resumed again); refused operations "
                 "(no elasticity, pool suspending itself) must report their error and leave the workers running.",
-        "required_probes": ["suspend_pu", "resume_pu", "suspend_pool", "resume_pool", "refused.no_elasticity", "refused.self_suspend", "tasks"],
+        "required_probes": ["suspend_pu", "resume_pu", "suspend_pool", "resume_pool", "refused.no_elasticity", "refused.self_suspend", "tasks",
+                            "race_resume", "resume_overlapped_suspend"],
     },
     "C12": {
         "quick_runs": 16000, "thorough_runs": 250000, "seed": 12000001,
@@ -91,10 +94,11 @@ PROPS = {
     "C20": {
         "quick_runs": 16000, "thorough_runs": 250000, "seed": 20000001,
         "rule": "C20 programs: all 32 completion modes (handler method x inline request x inline completion x high priority), with "
-                "and without the dedicated polling pool, 1-24 outstanding self-addressed MPI_Irecv/MPI_Isend pairs (1 B - 4 KiB, "
+                "and without the dedicated polling pool, polling size 1 (MPI_Testany) or 2-64 (MPI_Testsome in chunks of 32), 1-24 outstanding self-addressed MPI_Irecv/MPI_Isend pairs (1 B - 4 KiB, "
                 "per-message pattern) and MPI_Ibcast through transform_mpi in 1-3 batches, each inside its own enable_polling scope "
-                "and followed by pika::wait(); the simulated transport completes requests after drawn delays, out of order and in bursts.",
-        "required_probes": ["batch", "requests", "mpi_pool", "no_mpi_pool", "mode0", "mode8", "mode16", "mode30"],
+                "and followed by pika::wait(); the simulated transport completes requests after drawn delays, out of order and in bursts; in one run "
+                "in three it holds every completion back until a whole batch of 12-64 pairs is posted (up to 128 requests outstanding at once).",
+        "required_probes": ["batch", "requests", "mpi_pool", "no_mpi_pool", "mode0", "mode8", "mode16", "mode30", "all_requests_outstanding_at_once"],
         "stubbed": ["the MPI library: libpikasim defines MPI_Init_thread/Isend/Irecv/Ibcast/Test/Testany/Testsome/... as a single-rank "
                     "simulated transport (requests complete after drawn virtual delays, receive buffers are written at completion only); "
                     "the real libmpi is loaded but never initialised"],
